@@ -15,9 +15,11 @@ KINDS = {
 
 ARGS = ["", "[] ", "1 ", "$ ", "[$, 1] __integer_subtract__ ", "[1, 2] ", "{ 1 } ", "Done ", "7 [~, 1] __integer_add__ "]
 
-TARGETS = ["^", "^g", "&h ^~"]
+TARGETS = ["^", "^g", "&h ^~", "^h", "^g2"]
 
-PRELUDE = "g = #'int { 0 },\nh = #{ 0 },\ng2 = #['int, 'int] { 0 },\n"
+# the targets use their parameter, so that an argument outside the declared parameter type shows
+# (C01): g adds to it, g2 adds its two fields, h returns it (typed nil)
+PRELUDE = "g = #'int { [~, 1] __integer_add__ },\nh = #{ $ },\ng2 = #['int, 'int] { __integer_add__ },\n"
 
 POSITIONS = [
     "{T}",
